@@ -86,9 +86,9 @@ static void run(Ctx& c) {
     forest* FI = forests[iInt].first; forest* FB = forests[iBool].first; forest* FR = forests[iReal].first; forest* FE = forests[iEvp].first;
     forest* FI2 = forests[iInt_d2].first; forest* FB2 = forests[iBool_d2].first; forest* FX2 = forests[iRel2].first;
 
-    std::vector<int> order; for (int i = 0; i < 22; i++) order.push_back(i);
+    std::vector<int> order; for (int i = 0; i < 23; i++) order.push_back(i);
     r.shuffle(order);
-    int ncls = c.thorough ? 22 : r.range(8, 16);
+    int ncls = c.thorough ? 23 : r.range(8, 16);
     std::string done;
     for (int k = 0; k < ncls; k++) {
         std::string cls;
@@ -159,6 +159,16 @@ static void run(Ctx& c) {
                 mustFail(c, cls, int(error::TYPE_MISMATCH), [&]() { double d = 0; apply(MAX_RANGE, H[hI1].e, d); }); break;
             case 20: cls = "createEdgeForVar:variable-out-of-range";
                 mustFail(c, cls, -1, [&]() { dd_edge e(FI); FI->createEdgeForVar(sh1.n() + 3, false, e); }); break;
+            case 21: { cls = "DIVIDE:EV+:zero-divisor-under-an-infinite-numerator";
+                // the divisor is 0 at exactly one point, where the numerator is +infinity; the other points of that bottom row are finite,
+                // so the division reaches the terminals there: inf/0 is a division by zero like any other
+                if (sh1.sizes[1] < 2) { cls += "(skipped: bottom variable has one value)"; break; }
+                Table ta(size_t(w1.N), Val::in(0)), tb(size_t(w1.N), Val::in(0));
+                for (long p = 0; p < w1.N; p++) { ta[size_t(p)] = Val::in(6 + p % 5); tb[size_t(p)] = Val::in(1 + p % 3); }
+                size_t p0 = size_t(r.below(uint64_t(w1.N)));
+                ta[p0] = Val::inf(); tb[p0] = Val::in(0);
+                dd_edge ea(FE), eb(FE); buildFromTable(w1, FE, ta, ea); buildFromTable(w1, FE, tb, eb);
+                mustFail(c, cls, int(error::DIVIDE_BY_ZERO), [&]() { dd_edge res(FE); apply(DIVIDE, ea, eb, res); }); break; }
             default: cls = "CONVERT_TO_INDEX_SET:result-not-an-index-set";
                 mustFail(c, cls, -1, [&]() { dd_edge res(FE); apply(CONVERT_TO_INDEX_SET, H[hB1].e, res); }); break;
         }
